@@ -8,6 +8,7 @@ import (
 	"google.golang.org/grpc/codes"
 	"google.golang.org/grpc/metadata"
 	"google.golang.org/protobuf/proto"
+	"google.golang.org/protobuf/types/known/wrapperspb"
 )
 
 // view is the per-RPC projection of the history the oracles work on.
@@ -297,7 +298,7 @@ func (v *view) oracleC01() {
 				v.fail("C01", "c2h-wrong-or-missing-message", "handler decoded %s, not equal to the request sent (tag %d, %s)", rv.Got, tagOf(v.invoke.Msg), digestMsg(v.invoke.Msg.Build()))
 			}
 		}
-		if v.invoke != nil && v.invoke.RSeq != 0 && v.invoke.Err.IsNil() {
+		if v.invoke != nil && v.invoke.RSeq != 0 && v.invoke.Err.IsNil() && v.invoke.Flags["mismatch"] == "" {
 			if len(v.hSend) == 0 {
 				v.fail("C01", "h2c-fabricated-or-duplicated", "Invoke returned nil with response %s but the handler produced no response", v.invoke.Got)
 			} else if !msgEqual(v.invoke.GotMsg, v.hSend[0].Msg) {
@@ -507,6 +508,22 @@ func (v *view) oracleC02() {
 		v.relevant("C02")
 	}
 	ok := okTerminal(t, v.single)
+	if t.Flags["mismatch"] == "1" {
+		// the caller receives into a message of another type: a response that
+		// cannot be decoded into it is an error, never success
+		if len(v.hSend) >= 1 && v.hSend[0].Msg != nil && v.hSend[0].Msg.Kind != 4 {
+			v.s.stats.Probes["c02-mismatched-destination"]++
+			b, merr := proto.Marshal(v.hSend[0].Msg.Build())
+			undecodable := merr == nil && proto.Unmarshal(b, &wrapperspb.StringValue{}) != nil
+			if undecodable {
+				v.s.stats.Probes["c02-undecodable-response"]++
+				if ok {
+					v.fail("C02", "undecodable-response-reported-as-success", "the response (tag %d) cannot be decoded into the caller's message type, yet the call reports success", v.hSend[0].Msg.Tag)
+				}
+			}
+		}
+		return // the exact-status clauses assume the caller can decode what was sent
+	}
 	// a bare io.EOF from a unary call is never a legitimate outcome
 	if t.Op == "invoke" && t.Err.IsEOF() && !v.cutBefore(t.RSeq) {
 		v.fail("C02", "unary-bare-EOF", "Invoke returned a bare io.EOF")
@@ -582,6 +599,9 @@ func (v *view) oracleC02() {
 // clientSideFailure: the terminal outcome is due to something the client side
 // did wrong on purpose (e.g. credentials failing), not the handler's status.
 func (v *view) clientSideFailure() bool {
+	if v.terminal != nil && v.terminal.Flags["mismatch"] == "1" {
+		return true // the caller receives into a message type the reply may not decode into
+	}
 	return v.r.Creds != nil && (v.r.Creds.Fail || v.r.Creds.Secure)
 }
 
@@ -1069,6 +1089,9 @@ func (v *view) oracleC08() {
 		return
 	}
 	t := v.terminal
+	if t.Flags["mismatch"] == "1" {
+		return
+	}
 	v.relevant("C08")
 	produced := len(v.hSend) // attempts, in order
 	if t.Err != nil && t.Err.Class == "panic" && produced != 1 {
@@ -1131,7 +1154,7 @@ func (v *view) oracleC10() {
 	if f["method"] != want {
 		v.fail("C10", "transport-stream-method", "handler's ServerTransportStream method is %q, expected %q", f["method"], want)
 	}
-	if v.rs.nestedIn != nil {
+	if v.rs.nestedIn != nil && v.rs.deadline.IsZero() {
 		// deadline is inherited from the enclosing handler's context
 	} else if v.rs.deadline.IsZero() != (f["deadline"] == "") {
 		v.fail("C10", "deadline-presence", "caller has deadline: %v, handler sees deadline %q", !v.rs.deadline.IsZero(), f["deadline"])
